@@ -249,7 +249,17 @@ def run_shard(spec):
                                 pass
                 # nodes built through the API ("choose the layout automatically") placed in the
                 # document: rendering must not write its decisions back into them
-                if rng.random() < 0.3 and not d.contains_error:
+                if "\n" not in text.strip() and not d.contains_error:
+                    # a document written on one line: a binding that ends in a `#` comment forces it
+                    # onto several lines - a decision rebuild has to take without writing it down
+                    try:
+                        from nix_manipulator.expressions.comment import Comment
+                        from nix_manipulator.expressions.primitive import Primitive
+                        d["builtc"] = Primitive(value=7, after=[Comment(text="built", inline=True)])
+                        obs["purity"]["one_line_with_comment"] = obs["purity"].get("one_line_with_comment", 0) + 1
+                    except Exception:  # noqa: BLE001
+                        pass
+                elif rng.random() < 0.3 and not d.contains_error:
                     try:
                         for _ in range(rng.choice([1, 2])):
                             d["built" + str(rng.randrange(9))] = constructed_value(rng)
